@@ -1,8 +1,43 @@
-import Lean.Data.Json
-/- stub: the C08 driver is not built yet -/
+import Glom.Driver.InterpRun
+import Glom.Spec.C08
 namespace Glom.C08.Driver
-open Lean
+open Lean Glom.Interp Glom.Interp.Codec Glom.Interp.Run
 
-def run (_j : Json) : Except String Json := .error "property C08: driver not implemented yet"
+def modeOfName : String → Option Mode
+  | "AUTO" => some .auto | "FILL" => some .fill | "_glom_match" => some .mtch | "GROUP" => some .group
+  | _ => none
+
+def implProbes (log : List Json) : Except String (List (Nat × Mode)) :=
+  log.filterMapM (fun e => match e.getObjValAs? Nat "probe" with
+    | .ok id => do
+      let mn ← e.getObjValAs? String "mode"
+      match modeOfName mn with
+      | some m => return some (id, m)
+      | none => throw s!"unknown mode {mn}"
+    | .error _ => pure none)
+
+def run (j : Json) : Except String Json := do
+  let c ← decode j
+  let fuel := fuelFor c.spec
+  let (mres, mlog) := runModel c
+  if outOfDomain mres then
+    return Json.mkObj [("skip", true), ("why", "outside the modelled domain")]
+  if !(noRefF fuel c.spec) then
+    return Json.mkObj [("skip", true), ("why", "Ref(name) use: mode of the use site")]
+  let mlogJ := mlog.map evToJson
+  let logAgree := (Json.arr mlogJ.toArray).compress == (Json.arr c.implLog.toArray).compress
+  let agree := resEq mres c.implRes && logAgree
+  let probes ← implProbes c.implLog
+  let modesOK := checkModes fuel c.spec probes
+  let shapeOK := match c.implRes with
+    | .ok v => fillShapeOK c.spec v
+    | .error _ => true
+  let mprobes := probesOf mlog
+  return Json.mkObj [("agree", agree), ("holds", modesOK && shapeOK),
+    ("why", if !modesOK then "a probe recorded a mode that is not the static mode of its position"
+            else if !shapeOK then "Fill result does not have the shape of the spec" else ""),
+    ("model", Json.mkObj [("res", resToJson mres), ("log", Json.arr mlogJ.toArray)]),
+    ("static", Json.arr ((annotF fuel .auto c.spec).map (fun x => Json.arr #[toJson x.1, Json.str (modeName x.2)])).toArray),
+    ("branch", Json.str (s!"probes={mprobes.length}" ++ (match mres with | .ok _ => "-ok" | .error e => s!"-err-{e}")))]
 
 end Glom.C08.Driver
